@@ -46,6 +46,8 @@ impl DurationEstimator {
         let mut next_state = 0;
         let mut state = 0;
         for (i, (_start_frame, end_frame)) in times.iter().enumerate() {
+            #[cfg(feature = "verif-hooks")]
+            crate::verif::point("duration.align");
             if *end_frame >= 0.0 {
                 let curr_duration = Self::estimate_duration_with_frame_length(
                     &self.parameters[next_state..state + self.nstate],
@@ -102,6 +104,8 @@ impl DurationEstimator {
         let calculate_cost =
             |d: usize, MeanVari(mean, vari): MeanVari| (rho - (d as f64 - mean) / vari).abs();
         while target_length != sum {
+            #[cfg(feature = "verif-hooks")]
+            crate::verif::point("duration.adjust");
             // search flexible state and modify its duration
             if target_length > sum {
                 let (found_duration, _) = duration
